@@ -27,8 +27,8 @@ mutual
     | seq (elem : KTy)
     | arr (elem : KTy) (n : Nat)
     | struct (ext : Ext) (ms : KMs)
-    /-- final union (branches carry no key flags) -/
-    | union (disc : Prim) (bs : Bs)
+    /-- final / appendable union (branches carry no key flags) -/
+    | union (app : Bool) (disc : Prim) (bs : Bs)
   inductive KMs
     | nil
     | cons (id : Nat) (opt : Bool) (mu : Bool) (key : Bool) (t : KTy) (rest : KMs)
@@ -43,7 +43,7 @@ mutual
     | .seq el => .seq el.erase
     | .arr el n => .arr el.erase n
     | .struct x ms => .struct x ms.erase
-    | .union d bs => .union d bs
+    | .union a d bs => .union a d bs
   def KMs.erase : KMs → Ms
     | .nil => .nil
     | .cons id opt mu _ t rest => .cons id opt mu t.erase rest.erase
@@ -130,14 +130,14 @@ def Ty.storage : Ty → Nat
   | .enum _ _ _ => 0
   | .wstr => 13
   | .struct _ _ => 0
-  | .union _ _ => 0
+  | .union _ _ _ => 0
   | .seq el => 100 + (match el with | .prim p => (Ty.prim p).storage | .str => 13 | .wstr => 13 | _ => 0)
   | .arr el _ => 100 + (match el with | .prim p => (Ty.prim p).storage | .str => 13 | .wstr => 13 | _ => 0)
 
 def Ty.isComplex : Ty → Bool
   | .enum _ _ _ => true
   | .struct _ _ => true
-  | .union _ _ => true
+  | .union _ _ _ => true
   | _ => false
 
 /-- the type a value stored by a member of type `last` is serialized with when the descriptor found is of type
@@ -271,7 +271,7 @@ mutual
     | .seq el => .seq (tyK el)
     | .arr el n => .arr (tyK el) n
     | .struct x ms => .struct x (msK ms)
-    | .union d bs => .union d bs
+    | .union a d bs => .union a d bs
   def msK : Ms → KMs
     | .nil => .nil
     | .cons id opt mu t r => .cons id opt mu false (tyK t) (msK r)
